@@ -26,6 +26,26 @@ def c06_content_beyond_sender_gap_stashed(info):
     return all(m in pend and m[0] in fholes and m[1] >= fsv.get(m[0], 0) for m in missing)
 
 
+def redo_map_entry_origin_in_old_parent(info):
+    """undo/redo re-created a map entry (XML attribute / nested map value) inside a RE-CREATED parent but kept the
+    left neighbour (origin) of the entry's old chain in the old parent: the new item's origin lies in another
+    container than the item itself (seen in the repository test undo::test::special_deletion_case)."""
+    e = info.get("event") or {}
+    if e.get("k") != "txn":
+        return False
+    lst = (e.get("obs") or {}).get("lst", {})
+    where = {}
+    for c, ids in lst.items():
+        for i in ids:
+            where.setdefault(tuple(i), c)
+    for u in (e.get("upd") or {}).get("ins", []):
+        if u.get("sub") and tuple(u["o"]) != (0, 0):
+            here = where.get(tuple(u["id"]))
+            if here is not None and here != u["cont"] and here.endswith("|" + u["sub"]):
+                return True
+    return False
+
+
 try:
     from wire_patterns import *  # noqa: F401,F403  (patterns of the wire engine)
 except ImportError:
